@@ -839,6 +839,11 @@ def run(ctx):
         stats['seq_s'] = round(_time.time() - t0, 1)
         concurrent(ctx, res, 400, 10, stats)
         soak(ctx, res, 4, stats)
+    if not ctx.search_mode:
+        # schedule correspondence: the micro-step machine with the real push / pull / peek bodies (coq/model/TxnQueue.v) driven
+        # by the schedule the implementation ran under (harness/queuecorr.py, coq/model/ConcRun.v sched_check)
+        import queuecorr
+        queuecorr.run(ctx, res, 300 if ctx.quick else 3000)
     res.extra.update({'op_histogram': stats.get('ops', {}), 'prefix_histogram': stats.get('prefixes', {}),
                       'monitor_counters': stats.get('monitor', {}), 'concurrency': stats.get('conc', {}), 'soak': stats.get('soak', {}),
                       'sequential_seconds': stats.get('seq_s')})
